@@ -18,6 +18,14 @@ Check C16_sound_refuted_shared_filter_malformed : accepted_violating st_all w_sh
 Check C16_sound_refuted_will_topic : accepted_violating st_all w_will_topic 1 RWillTopic.
 Check C16_sound_refuted_subscription_id_not_available :
   exists st, accepted_violating st w_subid_unavailable 1 RSubscriptionIdNotAvailable.
+Check C16_string_nul_rejected :
+  validate_outbound w_reason_nul = Err EPacketValidationFailure /\
+  In RStringNul (violations st_all co_default no_resolution w_reason_nul) /\
+  validate_outbound (pub_with (Some [116; 0]) None None) = Err EPacketValidationFailure /\
+  validate_outbound (pub_with None None (Some [ {| up_name := [110; 0]; up_value := [118] |} ])) = Err EPacketValidationFailure /\
+  validate_outbound (pub_with None None (Some [ {| up_name := [110]; up_value := [0; 118] |} ])) = Err EPacketValidationFailure /\
+  validate_outbound (pub_with None (Some [0; 1]) None) = Ok tt /\
+  conforms st_all co_default no_resolution (pub_with None (Some [0; 1]) None) = true.
 Check C16_complete : forall st co r p id,
   submitted p -> unsub_overstrict st p = false ->
   violations st co r (bind_pid p id) = [] ->
@@ -45,6 +53,7 @@ Print Assumptions C16_sound_conforms.
 Print Assumptions C16_sound_refuted_shared_filter_malformed.
 Print Assumptions C16_sound_refuted_will_topic.
 Print Assumptions C16_sound_refuted_subscription_id_not_available.
+Print Assumptions C16_string_nul_rejected.
 Print Assumptions C16_complete.
 Print Assumptions C16_complete_refuted_unsubscribe.
 Print Assumptions C16_filter_grammar.
